@@ -521,6 +521,24 @@ impl Worker for W {
     }
 
     fn run(&mut self, case: &Value) -> CaseResult {
+        let mut r = run_history(case, false);
+        if r.verdict == Verdict::Violation {
+            // Attribution for the listed finding F45 (a module added after a failed import of it
+            // stays "not found"): re-run the history with every first definition of a module
+            // followed by a no-op content change (text + newline, then the text again), which
+            // goes through the invalidating path. If the history then agrees with the fresh VM
+            // the violation is exactly that defect; anything else stays unlisted.
+            let n = run_history(case, true);
+            if n.verdict == Verdict::Ok {
+                r.sig["neutralised_by"] = json!("touch-after-first-add");
+            }
+        }
+        r
+    }
+}
+
+fn run_history(case: &Value, neutralise: bool) -> CaseResult {
+    {
         let steps = match case["steps"].as_array() {
             Some(s) => s.clone(),
             None => return CaseResult::inconclusive(0, "bad case"),
@@ -554,8 +572,13 @@ impl Worker for W {
                     if latest.get(&i).map(|s| s.as_str()) != Some(src) {
                         runs_since_change.clear();
                     }
+                    let first = !latest.contains_key(&i);
                     latest.insert(i, src.to_string());
                     vm.get_database_mut().add_module(mname(i), src);
+                    if neutralise && first {
+                        vm.get_database_mut().add_module(mname(i), &format!("{}\n", src));
+                        vm.get_database_mut().add_module(mname(i), src);
+                    }
                     continue;
                 }
                 "load" => {
@@ -563,8 +586,14 @@ impl Worker for W {
                     if latest.get(&i).map(|s| s.as_str()) != Some(src) {
                         runs_since_change.clear();
                     }
+                    let first = !latest.contains_key(&i);
                     latest.insert(i, src.to_string());
                     let name = mname(i);
+                    if neutralise && first {
+                        vm.get_database_mut().add_module(mname(i), src);
+                        vm.get_database_mut().add_module(mname(i), &format!("{}\n", src));
+                        vm.get_database_mut().add_module(mname(i), src);
+                    }
                     let got = load_outcome(&vm, &name, src);
                     let long_log = crate::fx::take_log();
                     let want = fresh(&latest, &|f| load_outcome(f, &name, src));
